@@ -1,7 +1,7 @@
 (* C02: soundness of the certificate checker.
    check_prog P B Emain = true  ->  every run of P (any token list, any oracle) executes at most
    Emain + B * (number of tokens) steps, and then has halted in the final Ret of the entry function. *)
-From Coq Require Import List NArith Arith Bool Lia ZifyN ZifyNat ZifyBool.
+From Coq Require Import List NArith Arith Bool Lia ZifyN ZifyNat.
 From DC Require Import Skel.SkelLang Skel.SkelSem Skel.SkelCheck.
 Import ListNotations.
 Local Open Scope N_scope.
